@@ -332,6 +332,7 @@ pub fn apply_ev(w: &mut World, ev: &Ev) -> Applied {
                         h.prev_blockhash.to_byte_array()
                     },
                     height: base_h + 1 + k as u32,
+                    header: *h,
                 });
             }
             Applied::HeadersAnnounced
